@@ -17,6 +17,8 @@ from harness.constparts import render as tplmod
 
 ID = 'C19'
 PROPS_FILE = 'Props/Props_C19.v'
+EXTRA_TARGETS = ['Render/RCheck.vo']
+CONST_PARTS = ('render',)
 DAY = 86400_000_000
 HOUR = 3600_000_000
 MIN = 60_000_000
@@ -48,17 +50,30 @@ EXTRAS = [('owner', 'Bob "x"'), ('note', '</script>'), ('prio', 5), ('text', 'sh
           ('ratio', 0.5), ('kéy', 'v'), ('link', 'a\\b')]
 
 
+# the adversarial alphabet of the property text (quotes, braces, angle brackets, '$', ':', non-ASCII) with the
+# other characters the three target syntaxes give a meaning to
+ALPHABET = list('"\'{}<>$:') * 3 + list('#;%,&\\`/|()[]=-!. ') + list('abxyzAZ019_') + list('\u00e9\u00fc\u00df\u0416\u65e5\u672c\U0001f600\u200b\ufb02\u00b0\u00b6') + ['\t', '\x01', '\x7f']
+
+
 def gen_name(rng):
-    k = rng.choice([1, 1, 1, 2, 2, 3])
-    sep = rng.choice(['', '', ' '])
-    return sep.join(rng.choice(FRAGS) for _ in range(k))
-
-
-def gen_num(rng):
     r = rng.random()
-    if r < 0.25:
+    if r < 0.45:
+        k = rng.choice([1, 1, 1, 2, 2, 3])
+        sep = rng.choice(['', '', ' '])
+        return sep.join(rng.choice(FRAGS) for _ in range(k))
+    if r < 0.9:
+        return ''.join(rng.choice(ALPHABET) for _ in range(rng.choice([1, 2, 3, 5, 8, 13])))
+    # a fragment with random characters around it
+    return (''.join(rng.choice(ALPHABET) for _ in range(rng.randint(0, 3))) + rng.choice(FRAGS)
+            + ''.join(rng.choice(ALPHABET) for _ in range(rng.randint(0, 3))))
+
+
+def gen_num(rng, none_ok=False):
+    """a scheduler leaves a number in estimate and spent of every task (0 for milestones, roll-ups for summaries)"""
+    r = rng.random()
+    if none_ok and r < 0.1:
         return None
-    if r < 0.65:
+    if r < 0.6:
         return ['i', rng.choice([0, 0, 1, 2, 8, 8, 16, 40, 3])]
     return ['f', rng.choice([0.5, 7.5, 0.1, 2.5, 0.0, 8.0, 1.0, 0.3, 4.0, 1e-05, 12.25]).hex()]
 
@@ -132,8 +147,8 @@ def gen_case(rng):
         tasks.append({
             'level': levels[i], 'id': ids[i], 'name': gen_name(rng), 'start': start, 'end': end, 'ms': ms,
             'resource': rng.choice(RESOURCES),
-            'est': None if (has_child[i] and rng.random() < 0.7) else gen_num(rng),
-            'spent': None if (has_child[i] and rng.random() < 0.7) else gen_num(rng),
+            'est': ['i', 0] if ms else gen_num(rng),
+            'spent': gen_num(rng, none_ok=True),
             'min_start': gen_time(rng) if rng.random() < 0.15 else None,
             'preds': preds, 'attrs': attrs,
         })
@@ -153,10 +168,11 @@ def gen_case(rng):
     return {'clock': clock, 'cfg': cfg, 'tasks': tasks}
 
 
-def T(i, name, level=0, start=BASE, end=BASE + DAY, ms=False, resource=None, est=None, spent=None, min_start=None,
+def T(i, name, level=0, start=BASE, end=BASE + DAY, ms=False, resource=None, est=('i', 8), spent=('i', 0), min_start=None,
       preds=(), attrs=()):
     return {'level': level, 'id': i, 'name': name, 'start': start, 'end': end, 'ms': ms, 'resource': resource,
-            'est': est, 'spent': spent, 'min_start': min_start, 'preds': list(preds), 'attrs': [list(a) for a in attrs]}
+            'est': list(est), 'spent': None if spent is None else list(spent), 'min_start': min_start, 'preds': list(preds),
+            'attrs': [list(a) for a in attrs]}
 
 
 CFG0 = {'title': None, 'weekends': False, 'tick': None, 'height': 300, 'scale': 'day', 'today_marker': True}
@@ -169,22 +185,24 @@ def C(tasks, clock=BASE - 30 * DAY, **cfg):
 
 
 CORPUS = [
-    # --- witnesses of F22 and of the defects found with it (fail on the unrepaired tree) ---
-    C([T(1, 'A'), T(2, 'x}} --> 9{{y', preds=[0])]),                                    # network: added edge
+    # --- the three witnesses of F22 (each fails on the unrepaired tree) ---
+    C([T(1, 'A'), T(2, 'x}} --> 9{{y', preds=[0])]),                                    # network: added edge 2 --> 9
     C([T(1, 'see </div> here'), T(2, 'B')]),                                            # Mermaid div ends early
-    C([T(1, '<script>alert(1)</script>')]),                                             # element inside the Mermaid div
     C([T(1, 'a </script> b'), T(2, 'B', preds=[0])]),                                   # DHTMLX script ends inside the JSON
+    # --- the same in other shapes, and the defects of the gantt task text found with them ---
+    C([T(1, 'P'), T(2, 'S', level=1), T(3, 'a"}} --> 9{{x</script><b>', level=1, preds=[1]), T(4, 'M', ms=True, end=BASE, est=('i', 0), preds=[2])]),
+    C([T(1, '<script>alert(1)</script>')]),                                             # element inside the Mermaid div
     C([T(1, '<!--<script>')]),                                                          # DHTMLX: script never ends
     C([T(1, 'Step #2'), T(2, 'B')]),                                                    # gantt: rest of the line is a comment
-    C([T(1, '50% done'), T(2, 'B')]),                                                   # gantt: line is a comment
+    C([T(1, '%% draft'), T(2, 'B')]),                                                   # gantt: line is a comment
     C([T(1, 'a;b')]),                                                                   # gantt: statement separator
     C([T(1, 'section Alpha'), T(2, 'B')]),                                              # gantt: task read as a section
     C([T(1, 'Title page')]),                                                            # gantt: task read as the title
     C([T(1, ''), T(2, 'B')]),                                                           # gantt: missing name
     C([T(1, '2024-01-05 release')]),                                                    # gantt: name read as a date
     C([T(1, 'A', attrs=[('gantt_section', 'QA: x')]), T(2, 'B', attrs=[('gantt_section', 'Dev')])]),  # section text with ':'
-    C([T(1, 'Sum'), T(2, 'leaf', level=1, est=['i', 8], spent=['i', 3])]),               # DHTMLX: TypeError, estimate None
-    C([T(1, 'M', ms=True, end=BASE)], clock=BASE - DAY),                                # DHTMLX: milestone without estimate
+    C([T(1, 'Sum', est=('i', 8), spent=('i', 3)), T(2, 'leaf', level=1, est=('i', 8), spent=('i', 3))]),
+    C([T(1, 'M', ms=True, end=BASE, est=('i', 0))], clock=BASE - DAY),
     # --- boundary cases ---
     C([]),
     C([T(1, 'only')], clock=BASE + 400 * DAY),
@@ -194,7 +212,7 @@ CORPUS = [
     C([T(1, 'done', end=BASE), T(2, 'active', start=BASE - DAY, end=BASE + 1), T(3, 'future', start=BASE)], clock=BASE),
     C([T(1, 'r1'), T(2, 'c1', level=1), T(3, 'g1', level=2), T(4, 'c2', level=1), T(5, 'r2'), T(6, 'c3', level=1, preds=[1, 2])]),
     C([T(7, 'p', est=['i', 8], spent=['i', 3]), T(8, 'q', est=['i', 4], spent=['i', 10]), T(9, 'z', est=['i', 0], spent=['i', 1]),
-       T(10, 'f', est=['f', (0.1).hex()], spent=['f', (0.05).hex()]), T(11, 'n', est=['i', 8]), T(12, 'tiny', est=['i', 40], spent=['f', (1e-05).hex()])]),
+       T(10, 'f', est=['f', (0.1).hex()], spent=['f', (0.05).hex()]), T(11, 'n', est=['i', 8], spent=None), T(12, 'tiny', est=['i', 40], spent=['f', (1e-05).hex()])]),
     C([T(1, 'x', start=BASE + 13 * HOUR + 45 * MIN + 10_000_005, end=BASE + DAY + 23 * HOUR + 59 * MIN + 59_999_999,
          min_start=BASE - DAY + 5)]),
     C([T(1, 'early', start=-30610224000000000, end=253402300799999999)]),               # years 1000 and 9999
@@ -360,9 +378,13 @@ DOC_WHAT = {0: ('C19/mermaid document', 'the text of the <div class="mermaid"> e
 
 
 def load_fixed(ctx):
+    """templates and iframe wrappers of the source as it is now.  Pieces of the repairs that the extractor does
+    not find (unrepaired tree) are already reported by check_proofs as problems of the tie; the cases still run, so
+    that the failing inputs are shown."""
     vals, tpl, problems = tplmod.extract(ctx.repo)
-    if problems:
-        raise InfraError('constants extractor: ' + '; '.join(problems))
+    missing = [k for k in ('mgantt', 'mnet', 'dhtmlx') if 'wrapper_' + k not in vals or k not in tpl]
+    if missing:
+        raise InfraError('constants extractor: templates / wrappers not found for %s: %s' % (missing, '; '.join(problems)))
     wrappers = {k: vals['wrapper_' + k] for k in ('mgantt', 'mnet', 'dhtmlx')}
     return tpl, wrappers
 
@@ -426,7 +448,8 @@ def report(ctx, cases, obs, codes, py_diffs, doc_jobs, doc_codes, n_corpus):
     for i, sig, what in py_diffs:
         if (i, sig) not in bad_docs:
             ctx.mismatch(what, {'case': cases[i], 'from_corpus': i < n_corpus})
-    fails.sort(key=lambda f: f[0])
+    # the hand-written witnesses first (in corpus order of size), then the smallest generated case
+    fails.sort(key=lambda f: (0 if f[3].get('from_corpus') else 1, f[0]))
     seen = set()
     for _, sig, what, info in fails:
         # one entry per clause and case is enough
@@ -491,7 +514,8 @@ def run(ctx):
         'an HTML parser ends the raw text of <div>/<script> at the first "<" that the template writes when the inserted text '
         'contains no "<"; the srcdoc attribute is decoded with the five character references html.escape writes',
         'float repr (estimate, spent, progress) is handed over by the harness and only checked to be a JSON number within '
-        '1e-9 of the exact value; task ids are positive ints, names are str without newline / carriage return, '
+        '1e-9 of the exact value; task ids are positive ints, names are str without newline / carriage return, estimate is a '
+        'number (what a scheduler leaves; DhtmlxGantt raises TypeError on estimate None - observed, outside the property), '
         'dates have years 1000-9999, titles / tick intervals / style values are plain configuration text',
     ]
 
